@@ -644,6 +644,7 @@ func init() {
 		e.RWho()
 		e.C20Save()
 		e.RReadOnlyResolvers()
+		e.RGates()
 		e.RCacheAfterSuccess()
 	})
 }
